@@ -209,6 +209,34 @@ def run_property(pid, tier, use_cache=True, njobs=16, only=None, verbose=False):
     return rc
 
 
+_assume_cache = None
+
+
+def scan_assumes():
+    """file -> number of __CPROVER_assume statements (harness pre-state constraints, stub contracts, bound restrictions)"""
+    global _assume_cache
+    if _assume_cache is None:
+        out = {}
+        for root in ("contracts", "bounded", "stubs"):
+            d = os.path.join(core.VERIF, root)
+            for dirpath, dirs, files in os.walk(d):
+                for fn in sorted(files):
+                    if fn.endswith((".c", ".h")):
+                        with open(os.path.join(dirpath, fn), errors="replace") as f:
+                            n = sum(1 for line in f if "__CPROVER_assume" in line)
+                        if n:
+                            out[os.path.relpath(os.path.join(dirpath, fn), core.VERIF)] = n
+        # the in-source contracts must not contain any
+        for f in core.SRC_FILES:
+            pth = os.path.join(core.REPO, f)
+            if os.path.exists(pth):
+                with open(pth, errors="replace") as fh:
+                    n = sum(1 for line in fh if "__CPROVER_assume" in line)
+                out["repo:" + f] = n
+        _assume_cache = out
+    return _assume_cache
+
+
 def match_known(known, pid, jobname, tag, o):
     for kf in known.get("findings", []):
         if kf.get("property") != pid:
@@ -240,6 +268,14 @@ def write_evidence(pid, tier, seed, meta, js, per_job, n_obl, n_ok, samples, vio
         "undecided_jobs": [u[0] for u in undecided],
         "explanation": meta.get("explanation", ""),
     }
+    # mechanical scan of what is assumed rather than proved
+    enforced = {x.enforce for x in jobsmod.all_jobs() if x.enforce}
+    replaced = set()
+    for x in js:
+        replaced.update(x.replace)
+    cov["contracts_assumed_not_enforced"] = sorted(replaced - enforced)
+    cov["contracts_used_and_enforced_elsewhere"] = sorted(replaced & enforced)
+    cov["assume_statements_in_harnesses"] = scan_assumes()
     bounded = [p for p in per_job if p["engine"] == "E3"]
     cov["symex_steps_total"] = sum((p.get("stats") or {}).get("symex_steps", 0) for p in per_job)
     cov["sat_clauses_total"] = sum((p.get("stats") or {}).get("sat_clauses", 0) for p in per_job)
